@@ -72,7 +72,7 @@ def parseParamD (s : String) : Option (Ty × Core3.Ident) :=
 
 def parseFuncD (rt nm ps bs : String) : Option Func :=
   let params := if ps == "-" then some [] else (ps.splitOn "|").mapM parseParamD
-  let blocks := (bs.splitOn "/").mapM parseBlockD
+  let blocks := if bs == "-" then some [] else (bs.splitOn "/").mapM parseBlockD
   match tyArg rt, params, blocks with
   | some rt, some ps, some bs => some ⟨rt, argHex nm, ps, bs⟩
   | _, _, _ => none
